@@ -5,6 +5,7 @@
 static inline bool disc_tos_ok(int t) { return t == 0 || t == 1; }
 static uint32_t pick_mtu(Rng &r) {
     if (r.chance(0.6)) return (uint32_t)r.pickl({576, 577, 1280, 1500, 1500, 1500, 1501, 4096, 9000, 9216});
+    if (r.chance(0.3)) { static const int64_t R[] = {1024, 1536, 2048, 3072, 4096, 8192, 1492, 1480, 2000, 2304, 7981, 9180}; return (uint32_t)(R[r.below(12)] + r.pickl({0, 0, 0, -1, 1})); } // round values and well-known link sizes, each with its neighbours
     return (uint32_t)r.range(576, 9216);
 }
 static NodeCfg rnd_node(Rng &r, std::initializer_list<int64_t> glues) {
@@ -333,7 +334,9 @@ static Plan gen_C05(uint64_t seed, Rng &r, uint64_t index) {
         int node = (int)r.below((uint64_t)nn);
         Op o;
         switch (r.below(10)) {
-        case 0: case 1: case 2: case 3: o = op_discover(r, sid, tos); if (disc_tos_ok(tos) && active < 0) active = sid; break;
+        case 0: case 1: case 2: case 3: o = op_discover(r, sid, tos); if (disc_tos_ok(tos) && active < 0) active = sid;
+            if (r.chance(0.04)) { o.a[0] = r.chance(0.6) ? 100 + node : 300 + 6 * node + (int64_t)r.below(6); o.a[5] = 2; active = -1; } // a station that carries our own address (or a neighbour of it) as real source is a station like any other
+            break;
         case 4: o = mk(OP_RESET, rnd_dt(r), {sid, rnd_bridge(r, sid), tos, r.chance(0.3) ? 1 : 0, node, 0}); if (tos <= 1) active = -1; break;
         case 5: o = mk(OP_HELLO, rnd_dt(r), {sid, rnd_gen(r), tos <= 1 ? tos : 0, 1, 0, 0}); break;
         case 6: o = mk(OP_PROBE, rnd_dt(r), {sid, sid, r.chance(0.5) ? wire::W_PROBE : wire::W_TRAIN, 100 + node, 100 + node, 0, 0, 0}); break;
@@ -519,6 +522,21 @@ static Plan gen_C09(uint64_t seed, Rng &r) {
         p.tail_ms = (uint32_t)r.range(2000, 6000);
         return p;
     }
+    if (r.chance(0.05)) { // the observation record filled to (or past) its bound, then the Reset, then the new session asks for observations
+        p.family = 2;
+        p.nodes.push_back(rnd_node(r, {GLUE_BARE, GLUE_LEGACY, GLUE_DARWIN}));
+        int mp = (int)r.below(3);
+        p.ops.push_back(mk(OP_DISCOVER, 5, {mp, -1, 0, rnd_gen(r), rnd_seq(r), 0, 0, 0}));
+        int64_t total = r.pickl({1022, 1023, 1024, 1025, 1100, 511, 512, 513, 255, 256, 257});
+        p.ops.push_back(mk(OP_FLOOD, 5, {total, 50000, 0, 0, 0}));
+        if (r.chance(0.3)) p.ops.push_back(mk(OP_QUERY, 20, {mp, -1, 0, rnd_seq(r), 0}));
+        p.ops.push_back(mk(OP_RESET, 20, {mp, -1, 0, 0, 0, 0}));
+        p.ops.push_back(mk(OP_DISCOVER, 20, {(mp + 1) % 3, -1, 0, rnd_gen(r), rnd_seq(r), 0, 0, 0}));
+        p.ops.push_back(mk(OP_FLOOD, 5, {r.range(1, 3), r.chance(0.5) ? 50000 : 60000, 0, 0, 0}));
+        p.ops.push_back(mk(OP_QUERY, 20, {(mp + 1) % 3, -1, 0, rnd_seq(r), 5}));
+        p.tail_ms = 500;
+        return p;
+    }
     int nn = 1 + (int)r.below(2);
     for (int i = 0; i < nn; i++) p.nodes.push_back(rnd_node(r, {GLUE_BARE, GLUE_BARE, GLUE_LEGACY, GLUE_DARWIN}));
     Mix m;
@@ -579,6 +597,25 @@ static Plan gen_C10(uint64_t seed, Rng &r) {
         }
         p.ops.push_back(mk(OP_QUERY, (uint32_t)r.range(300, 900), {mapper, -1, B, rnd_seq(r), 40}));
         p.tail_ms = 600;
+        return p;
+    }
+    if (r.chance(0.04)) { // a third interface of the host is re-created (fresh context pointer, first frame) 15..200 times between A's emission and B's Query
+        p.family = 5;
+        p.nodes.resize(2);
+        p.nodes.push_back(rnd_node(r, {GLUE_BARE}));
+        for (auto &n : p.nodes) n.glue = GLUE_BARE;
+        int A = (int)r.below(2), B = 1 - A;
+        Op e = mk(OP_EMIT, 30, {mapper, -1, A, rnd_seq(r), -1, 0});
+        e.blob = rnd_descs(r, (size_t)r.range(1, 4), nullptr, &nm[B]);
+        for (size_t d = 0; d < e.blob.size() / 14; d++) e.blob[d * 14 + 1] = 0;
+        p.ops.push_back(e);
+        int64_t K = r.pickl({15, 31, 32, 62, 63, 64, 65, 127, 128, 200});
+        for (int64_t k = 0; k < K; k++) {
+            p.ops.push_back(mk(OP_ATTR, (uint32_t)r.range(1, 4), {2, 0, 0x80000, 0}));
+            Op d = mk(OP_DISCOVER, 1, {mapper, -1, 0, rnd_gen(r), rnd_seq(r), 1, 0, -1}); d.only = 2; d.blob = {2}; p.ops.push_back(d);
+        }
+        p.ops.push_back(mk(OP_QUERY, 300, {mapper, -1, B, rnd_seq(r), 10}));
+        p.tail_ms = 500;
         return p;
     }
     if (r.chance(0.06)) { // B holds a few more observations than one QueryResp carries; one Query; A is ordered to send the most recent (or the first) frame again; Query
@@ -658,6 +695,22 @@ static Plan gen_C11(uint64_t seed, Rng &r) {
     p.nodes.push_back(n);
     if (!huge && r.chance(0.2)) p.nodes.push_back(rnd_node(r, {GLUE_DARWIN}));
     if (r.chance(0.25)) { p.family = 1; keepalive_ops(r, p, (int)p.nodes.size()); p.tail_ms = (uint32_t)r.range(500, 3000); return p; }
+    if (!huge && r.chance(0.05)) { // as many sessions as the table holds (8 stations x generations), then known mappers repeat their Discover - same number, new number, same again
+        p.family = 3;
+        p.nodes.resize(1);
+        int M = (int)r.pickl({15, 16, 16, 16, 17});
+        uint16_t g = rnd_gen(r);
+        std::vector<int64_t> seqs;
+        for (int k = 0; k < M; k++) { seqs.push_back(rnd_seq(r)); Op o = mk(OP_DISCOVER, (uint32_t)r.range(1, 40), {k % 8, -1, 0, (int64_t)((g + k / 8) & 0xFFFF), seqs.back(), 1, r.range(0, 3), r.chance(0.5) ? -1 : 0}); o.blob = {0}; p.ops.push_back(o); }
+        int reps = (int)r.range(3, 12);
+        for (int i = 0; i < reps; i++) {
+            int k = (int)r.below((uint64_t)M);
+            if (r.chance(0.5)) seqs[(size_t)k] = rnd_seq(r);
+            Op o = mk(OP_DISCOVER, (uint32_t)r.range(1, 40), {k % 8, -1, 0, (int64_t)((g + k / 8) & 0xFFFF), seqs[(size_t)k], 1, r.range(0, 3), r.chance(0.5) ? -1 : 0}); o.blob = {0}; p.ops.push_back(o);
+            if (r.chance(0.5)) p.ops.push_back(o); // once more with the very same number
+        }
+        return p;
+    }
     int mapper = (int)r.below(3);
     uint16_t gen = rnd_gen(r);
     int64_t xid = rnd_seq(r);
@@ -926,8 +979,8 @@ static Plan gen_C15(uint64_t seed, Rng &r, uint64_t index) {
         }
         if (x < 6) p.ops.push_back(mk(OP_A_SESS, 0, {(int64_t)r.below(8)}));
         else if (x < 7 && r.chance(0.3)) p.ops.push_back(mk(OP_A_REINIT, 0, {})); // a second, third, ... automaton created later in the life of the process
-        else if (x < 9) p.ops.push_back(mk(OP_A_ADV, 0, {r.chance(0.9) ? 1000 * r.pickl({0, 0, 1, 1, 2, 3, 10}) : 1000 * big_jump(r)}));
-        else p.ops.push_back(mk(OP_A_SETSESS, 0, {(int64_t)r.below(4), r.chance(0.9) ? r.pickl({0, 1, 2, 10}) : big_jump(r)}));
+        else if (x < 9) p.ops.push_back(mk(OP_A_ADV, 0, {r.chance(0.85) ? 1000 * r.pickl({0, 0, 1, 1, 2, 3, 10}) : (r.chance(0.5) ? 1000 * big_jump(r) : 1000 * r.pickl({59, 60, 61, 119, 120, 121, 3599, 3600, 3601, 86399, 86400, 86401, 100, 1000}))}));
+        else p.ops.push_back(mk(OP_A_SETSESS, 0, {(int64_t)r.below(4), r.chance(0.85) ? r.pickl({0, 1, 2, 10}) : (r.chance(0.5) ? big_jump(r) : r.pickl({59, 60, 61, 120, 3600, 86400}))}));
     }
     return p;
 }
@@ -1114,6 +1167,7 @@ Plan generate_plan_indexed(const std::string &prop, uint64_t verif_seed, uint64_
             if (!p.api_world && p.ops.size() < 400) {
                 p.prop = prop; p.family = 50; p.seed = seed;
                 for (auto &n : p.nodes) { if (n.mtu < 576) n.mtu = 576; if (n.mtu > 9216) n.mtu = 9216; } // only C06 is stated for links outside [576, 9216]
+                for (auto &o : p.ops) if (o.kind == OP_ATTR && (o.a[2] & 0x80000)) o.a[2] &= ~(int64_t)0x80000; // hot-plug (a new context = a new interface for the core) stays with the generators written for it
                 if (p.nodes.size() > 8) return generate_plan(prop, seed, tier);
                 p.twin = prop == "C09";
                 if (prop != "C09" && prop != "C19" && prop != "C01" && prop != "C02") for (auto &o : p.ops) { std::vector<Fault> keep; for (auto &f : o.f) if (!fault_is_internal(f.kind)) keep.push_back(f); o.f = keep; }
